@@ -60,7 +60,8 @@ theorem writeChunk_adm {leaf : LeafInfo} {cl : ChunkLayout} {es : Chunk} {pos : 
       c.bytes = cl.gapBefore ++ dp.bytes ++ pages.bytes ∧
       c.cmeta = .struct (chunkDesc leaf cl es pos dp pages).fields ∧
       c.oracle = dp.oracle ++ pages.oracle ∧
-      c.endPos = pos + cl.gapBefore.length + dp.bytes.length + pages.bytes.length := by
+      c.endPos = pos + cl.gapBefore.length + dp.bytes.length + pages.bytes.length ∧
+      c.usize = dp.usize + pages.usize := by
   unfold writeChunk at hw
   simp only [Option.ite_none_left_eq_some] at hw
   obtain ⟨hcond, hw⟩ := hw
@@ -80,7 +81,7 @@ theorem writeChunk_adm {leaf : LeafInfo} {cl : ChunkLayout} {es : Chunk} {pos : 
     | some pages =>
       simp only [hpg, Option.some.injEq] at hw
       subst hw
-      refine ⟨⟨[], [], 0⟩, pages, rfl, hpg, hwf, hcod, ?_, rfl, ?_, rfl, rfl⟩
+      refine ⟨⟨[], [], 0⟩, pages, rfl, hpg, hwf, hcod, ?_, rfl, ?_, rfl, rfl, rfl⟩
       · intro d hd; cases hd
       · simp only [chunkDesc, hdict]
         cases cl.chunkStats <;> rfl
@@ -95,7 +96,7 @@ theorem writeChunk_adm {leaf : LeafInfo} {cl : ChunkLayout} {es : Chunk} {pos : 
       | some pages =>
         simp only [hdp, hpg, Option.some.injEq] at hw
         subst hw
-        refine ⟨dp, pages, hdp, hpg, hwf, hcod, ?_, rfl, ?_, rfl, rfl⟩
+        refine ⟨dp, pages, hdp, hpg, hwf, hcod, ?_, rfl, ?_, rfl, rfl, rfl⟩
         · intro d' hd'
           cases hd'
           simp only [Bool.and_eq_true, beq_iff_eq, List.all_eq_true] at hdictc
@@ -180,6 +181,34 @@ theorem readChunk_of_writeChunk (cfg : Config) (leaf : LeafInfo) (cl : ChunkLayo
     simp only [chunkDesc, hdict]
     cases d.offsetPresent <;> simp
 
+/-- the chunk's `total_uncompressed_size`, as the independent reader evaluates it on what `writeChunk` laid out -/
+theorem chunkUsize_of_writeChunk (cfg : Config) (leaf : LeafInfo) (cl : ChunkLayout) (es : Chunk) (dp pages : Written)
+    (hp : ChunkAdm cl)
+    (hdp : (match cl.dict with
+            | none => some (⟨[], [], 0⟩ : Written)
+            | some d => writeDictPage leaf d) = some dp)
+    (hpages : writeDataPages leaf (cl.dict.map (·.values)) cl.pages es = some pages)
+    (hwf : wellFormedChunk leaf es = true)
+    (hcodecs : ∀ pl ∈ cl.pages, pl.comp.codec = cl.codec)
+    (hdictc : ∀ d, cl.dict = some d → d.comp.codec = cl.codec ∧ ∀ v ∈ d.values, validValue leaf v = true)
+    (hlen : dp.bytes.length + pages.bytes.length < 2 ^ 31) (hus : dp.usize + pages.usize < 2 ^ 31) (hes : es.length < 2 ^ 31)
+    (ho : ∀ e ∈ dp.oracle ++ pages.oracle, oracleLookup cfg.oracle e.1 = some e.2) :
+    chunkUsize (dp.bytes.length + pages.bytes.length + 1) (dp.bytes ++ pages.bytes) = some (dp.usize + pages.usize) := by
+  cases hdict : cl.dict with
+  | none =>
+    rw [hdict] at hdp hpages
+    simp only [Option.some.injEq] at hdp
+    subst hdp
+    simp only [Option.map_none, List.length_nil, Nat.zero_add, List.nil_append] at hpages hlen hus ho ⊢
+    exact chunkUsize_written_nodict cfg cl.codec leaf cl.pages es pages (fun pl hpl => ⟨hp.pages pl hpl, hcodecs pl hpl⟩) hpages hwf
+      hlen hus hes ho
+  | some d =>
+    rw [hdict] at hdp hpages
+    simp only [Option.map_some] at hpages
+    obtain ⟨hdc, hvalid⟩ := hdictc d hdict
+    exact chunkUsize_written_dict cfg cl.codec leaf d cl.pages es dp pages (hp.dict d hdict) hdc hdp hvalid
+      (fun pl hpl => ⟨hp.pages pl hpl, hcodecs pl hpl⟩) hpages hwf hlen hus hes ho
+
 theorem drop_take_middle2 {α : Type} (a b c : List α) (n k : Nat) (hn : n = a.length) (hk : k = b.length) :
     ((a ++ b ++ c).drop n).take k = b := by
   subst hn hk
@@ -194,13 +223,14 @@ theorem readChunks_written_gen (cfg : Config) (hcfg : cfg.strictTiling = false) 
       (∀ e ∈ g.oracle, oracleLookup cfg.oracle e.1 = some e.2) →
       ∃ ds : List CcDesc, g.metas = ds.map (fun d => TVal.struct d.fields) ∧ (∀ d ∈ ds, d.Ok) ∧
         g.endPos = pos + g.bytes.length ∧
+        g.usize = (ds.map (·.m.totalUncompressed)).sum ∧
         ∀ (pre post : Bytes) (footerStart p : Nat), pre.length = pos → pos + g.bytes.length ≤ footerStart →
           (pre ++ g.bytes ++ post).length < 2 ^ 31 →
           ∃ q, readChunks cfg (pre ++ g.bytes ++ post) footerStart leaves (ds.map (·.m)) p = .ok (ess, q)
   | [], [], [], pos, g, _, hw, _, _, _, _ => by
     simp only [writeChunks, Option.some.injEq] at hw
     subst hw
-    exact ⟨[], rfl, (fun d hd => by cases hd), (by simp), fun pre post fs p _ _ _ => ⟨p, rfl⟩⟩
+    exact ⟨[], rfl, (fun d hd => by cases hd), (by simp), rfl, fun pre post fs p _ _ _ => ⟨p, rfl⟩⟩
   | leaf :: ls, cl :: cls, es :: ess, pos, g, hpl, hw, hpos, hsmall, husz, ho => by
     simp only [writeChunks] at hw
     cases hc : writeChunk leaf cl es pos with
@@ -213,21 +243,22 @@ theorem readChunks_written_gen (cfg : Config) (hcfg : cfg.strictTiling = false) 
         subst hw
         simp only at husz ho
         have hcl := hpl cl (by simp)
-        obtain ⟨dp, pages, hdp, hpages, hwf, hcodecs, hdictc, hbytes, hmeta, horacle, hend⟩ := writeChunk_adm hcl hc
-        obtain ⟨ds', hds', hok', hend', hread'⟩ := readChunks_written_gen cfg hcfg ls cls ess c.endPos g'
+        obtain ⟨dp, pages, hdp, hpages, hwf, hcodecs, hdictc, hbytes, hmeta, horacle, hend, hcus⟩ := writeChunk_adm hcl hc
+        obtain ⟨ds', hds', hok', hend', hus', hread'⟩ := readChunks_written_gen cfg hcfg ls cls ess c.endPos g'
           (fun x hx => hpl x (by simp [hx])) hr (by omega) (fun x hx => hsmall x (by simp [hx]))
           (fun x hx => husz x (by simp [hx])) (fun e he => ho e (by simp [he]))
         have hdok := chunkDesc_ok leaf cl es pos dp pages hcl
         have hus : dp.usize + pages.usize < 2 ^ 31 := by
           have := chunkUsizeOk_desc _ hdok (by rw [← hmeta]; exact husz _ (by simp))
           exact this
-        refine ⟨chunkDesc leaf cl es pos dp pages :: ds', ?_, ?_, ?_, ?_⟩
+        refine ⟨chunkDesc leaf cl es pos dp pages :: ds', ?_, ?_, ?_, ?_, ?_⟩
         · simp [hmeta, hds']
         · intro d hd
           rcases List.mem_cons.mp hd with rfl | hd'
           · exact hdok
           · exact hok' d hd'
         · simp only [List.length_append, hend', hend, hbytes]; omega
+        · simp only [List.map_cons, List.sum_cons, hcus, hus']; rfl
         · intro pre post fs p hpre hfs hlen
           simp only [hbytes, List.length_append] at hfs hlen
           -- the recursive call sees the same file with a longer prefix
@@ -244,19 +275,22 @@ theorem readChunks_written_gen (cfg : Config) (hcfg : cfg.strictTiling = false) 
             exact drop_take_middle2 _ _ _ _ _ (by simp [hpre]) (by simp)
           have hchunk := readChunk_of_writeChunk cfg leaf cl es pos dp pages hcl hdp hpages hwf hcodecs hdictc (by omega) hus
             (hsmall es (by simp)) (fun e he => ho e (by rw [horacle]; simp only [List.mem_append] at he ⊢; exact Or.inl he))
+          have husize := chunkUsize_of_writeChunk cfg leaf cl es dp pages hcl hdp hpages hwf hcodecs hdictc (by omega) hus
+            (hsmall es (by simp)) (fun e he => ho e (by rw [horacle]; simp only [List.mem_append] at he ⊢; exact Or.inl he))
           have hstart := chunkStart_chunkDesc leaf cl es pos dp pages
           have hm1 : (chunkDesc leaf cl es pos dp pages).m.ptype = ptypeCode leaf.ptype := rfl
           have hm2 : (chunkDesc leaf cl es pos dp pages).m.path = leaf.path.map strBytes := rfl
           have hm3 : (chunkDesc leaf cl es pos dp pages).m.totalCompressed = dp.bytes.length + pages.bytes.length := rfl
+          have hm4 : (chunkDesc leaf cl es pos dp pages).m.totalUncompressed = dp.usize + pages.usize := rfl
           refine ⟨q, ?_⟩
           simp only [List.map_cons, hbytes]
-          generalize (chunkDesc leaf cl es pos dp pages).m = m at hchunk hstart hm1 hm2 hm3 ⊢
+          generalize (chunkDesc leaf cl es pos dp pages).m = m at hchunk hstart hm1 hm2 hm3 hm4 ⊢
           unfold readChunks
-          simp only [hstart, hm1, hm2, hm3, hcfg, Bool.false_and, Bool.false_eq_true, if_false, bind, Except.bind,
+          simp only [hstart, hm1, hm2, hm3, hm4, hcfg, Bool.false_and, Bool.false_eq_true, if_false, bind, Except.bind,
             pure, Except.pure]
           have h4 : ¬ (pos + cl.gapBefore.length < 4 ∨
               pos + cl.gapBefore.length + (dp.bytes.length + pages.bytes.length) > fs) := by omega
-          simp only [ne_eq, not_true_eq_false, if_false, h4, hslice, hchunk]
+          simp only [ne_eq, not_true_eq_false, if_false, h4, hslice, hchunk, husize]
           rw [hfile2]
           simp only [hq]
   | [], _ :: _, _, _, _, _, hw, _, _, _, _ => by simp [writeChunks] at hw
@@ -296,13 +330,13 @@ theorem readRowGroups_written_gen (cfg : Config) (hcfg : cfg.strictTiling = fals
           simp only [hwc, hr, Option.some.injEq] at hw
           subst hw
           simp only at husz ho
-          have husz0 := rgUsizeOk_withExtras o.metas o.bytes.length (groupRows leaves g) extra hx (husz _ (by simp))
-          obtain ⟨ms, hms, hmok, hend, hread⟩ := readChunks_written_gen cfg hcfg leaves cls g.chunks pos o (hpl cls (by simp))
+          have husz0 := rgUsizeOk_withExtras o.metas o.usize (groupRows leaves g) extra hx (husz _ (by simp))
+          obtain ⟨ms, hms, hmok, hend, hous, hread⟩ := readChunks_written_gen cfg hcfg leaves cls g.chunks pos o (hpl cls (by simp))
             hwc hpos (hsmall g (by simp)) husz0 (fun e he => ho e (by simp [he]))
           obtain ⟨ds', hds', hok', hend', hnr', hread'⟩ := readRowGroups_written_gen cfg hcfg leaves extra hx r gs o.endPos rest
             (fun x hx => hpl x (by simp [hx])) hr (by omega) (fun x hx => hsmall x (by simp [hx]))
             (fun x hx => husz x (by simp [hx])) (fun e he => ho e (by simp [he]))
-          refine ⟨⟨ms, o.bytes.length, groupRows leaves g, extra⟩ :: ds', ?_, ?_, ?_, ?_, ?_⟩
+          refine ⟨⟨ms, o.usize, groupRows leaves g, extra⟩ :: ds', ?_, ?_, ?_, ?_, ?_⟩
           · simp only [List.map_cons, hds', hms]
             rfl
           · intro d hd
@@ -328,7 +362,9 @@ theorem readRowGroups_written_gen (cfg : Config) (hcfg : cfg.strictTiling = fals
             unfold readRowGroups
             simp only [List.map_cons, RgDesc2.meta', bind, Except.bind, pure, Except.pure]
             rw [hf1, hq1]
-            simp only [hrows', Bool.not_true, Bool.false_eq_true, if_false]
+            have hbs : ((ms.map (·.m)).map (·.totalUncompressed)).sum = o.usize := by
+              rw [hous, List.map_map]; rfl
+            simp only [hrows', Bool.not_true, Bool.false_eq_true, if_false, hbs, ne_eq, not_true_eq_false]
             rw [← hf1, hf2]
             rw [hq2]
   | [], _ :: _, _, _, _, hw, _, _, _, _ => by simp [writeGroups] at hw
